@@ -264,10 +264,8 @@ func c17Class(in *c17Input, obs *c17Obs) string {
 			}
 		}
 		switch {
-		case in.Kind == "num" && in.TNum < in.First:
+		case (in.Kind == "num" || in.Kind == "irrnum") && in.TNum < in.First:
 			tc = "below-first"
-		case in.Kind == "irrnum" && in.TNum < 2:
-			tc = "below-2"
 		case reach == 0:
 			tc = "absent"
 		default:
@@ -538,6 +536,9 @@ func c17Corpus() []any {
 		c17Input{Kind: "num", First: 3, TNum: 2, GateType: 1, Events: low},
 		c17Input{Kind: "irrnum", First: 5, TNum: 1, GateType: 1, Events: low},
 		c17Input{Kind: "irrnum", First: 3, TNum: 2, GateType: 1, Events: low},
+		// finding C17-irrnum-first-streamable-constants: first streamable block 1 (resp. 3), gate below it
+		c17Input{Kind: "irrnum", First: 1, TNum: 0, GateType: 1, Events: []c17Ev{{"00000001a", 1, 16, 0}, {"00000002a", 2, 16, 0}, {"00000003a", 3, 16, 0}}},
+		c17Input{Kind: "irrnum", First: 3, TNum: 1, GateType: 1, Events: low},
 		c17Input{Kind: "id", TID: "", GateType: 1, Events: low},
 		c17Input{Kind: "id", TID: c17Zero64, GateType: 1, Events: low[1:]},
 		c17Input{Kind: "numgator", TNum: 3, GateType: 0, Events: low},
